@@ -15,8 +15,16 @@ from . import val
 NONE = val.NONE
 
 
+_ARGS = None   # when set (dict), every argument object handed to the collection is remembered here
+
+
 def _arg(o, name, pool, tuples=False):
-    return val.to_py(o[name], pool, tuples)
+    if _ARGS is not None and ("given", name) in _ARGS:
+        return _ARGS[("given", name)]
+    x = val.to_py(o[name], pool, tuples)
+    if _ARGS is not None:
+        _ARGS[name] = x
+    return x
 
 
 def _slice(o):
@@ -33,13 +41,19 @@ def n_variants(kind, o):
             "append": 2, "getitem": 2}.get(op, 1)
 
 
-def perform(target, o, variant=0, pool=None, builtin=False):
+def perform(target, o, variant=0, pool=None, builtin=False, args=None):
+    """args: optional dict; ("given", name) entries override an argument with a prepared object (e.g. a
+    synced collection), and the argument objects actually passed are stored under their names."""
+    global _ARGS
+    _ARGS = args
     try:
         return ("ret", _do(target, o, variant, pool, builtin))
     except BaseException as e:  # noqa: BLE001 - every exception class is an observation
         if isinstance(e, (KeyboardInterrupt, SystemExit, MemoryError)):
             raise
         return ("err", e)
+    finally:
+        _ARGS = None
 
 
 def _do(t, o, variant, pool, builtin):
